@@ -204,7 +204,7 @@ def cli_trace(H):
 
 
 # ------------------------------------------------------------------------------------------------ SVG._simplify on a tree
-@obligation(("C02", "C03", "C04", "C05", "C01"), "simplify.trace", functions=["svg.SVG._simplify", "svg.SVG._traverse", "svg.SVG.breadth_first", "svg._replace_el", "svg._reset_attrs", "svg._del_attrs"])
+@obligation(("C02", "C03", "C04", "C05", "C01", "C07"), "simplify.trace", functions=["svg.SVG._simplify", "svg.SVG._traverse", "svg.SVG.breadth_first", "svg._replace_el", "svg._reset_attrs", "svg._del_attrs"])
 def simplify_trace(H):
     """_simplify on <svg fill><g transform=G clip-path><rect transform=R stroke?/></g><clipPath/></svg>: the rect is
     outlined in its OWN coordinate system first (stroke), every resulting path is then placed with the full CTM (own
